@@ -25,7 +25,7 @@ import (
 
 const kitchenSink = `
 schema:
-  fields: [facility, level, time, host, app, pid, source, extradata, log, class, task, vhost, short, mapped, num]
+  fields: [facility, level, time, host, app, pid, source, extradata, log, class, task, vhost, short, mapped, num, dup1, dup2]
   maxFields: 20
 inputs:
   - type: syslog
@@ -57,6 +57,8 @@ transformations:
     fields:
       short: ${log[:10]}${host[-3:]}
       mapped: $level
+      dup1: $log
+      dup2: $app $log
   - type: mapValue
     key: mapped
     mapping:
